@@ -92,10 +92,14 @@ class C02(Prop):
         return {'stack': stack, 't1': t1, 't2': t2}
 
     def sample_view(self, case):
+        if 'many_open' in case:
+            return case
         return {'stack': ['%s = %s' % (show(tt(a)), show(tt(b))) for a, b in case['stack']],
                 'pair': '%s = %s' % (show(tt(case['t1'])), show(tt(case['t2'])))}
 
     def shrink_candidates(self, case):
+        if 'many_open' in case:
+            return
         st = case['stack']
         for i in range(len(st)):
             yield dict(case, stack=st[:i] + st[i + 1:])
@@ -105,6 +109,8 @@ class C02(Prop):
 
     # -- the decision function
     def decide(self, case):
+        if 'many_open' in case:
+            return self.decide_many_open(case)
         stack = [(tt(a), tt(b)) for a, b in case['stack']]
         t1, t2 = tt(case['t1']), tt(case['t2'])
         try:
@@ -245,6 +251,44 @@ class C02(Prop):
         if final != [('v', i) for i in range(len(pool))]:
             return ('stack-not-restored', 'pool variables after closing everything: %r' % (final,))
         return None
+
+    # -- many unifications open at the same time
+    def extra_checks(self, tier, seed):
+        case = {'many_open': 700 if tier == 'quick' else 3000}
+        return [(case, self.decide(case))]
+
+    def decide_many_open(self, case):
+        """n compound unifications g(Xi, b) = g(a, Yi) are started one after the other and ALL kept open (a deep
+        conjunction, or a recursion over two long lists, does exactly that): each must yield once with Xi = a, Yi = b;
+        closed in reverse order, every variable is unbound again"""
+        from yldprolog.engine import unify
+        n = case['many_open']
+        yp = impl.YP()
+        a, b = yp.atom('a'), yp.atom('b')
+        xs = [yp.variable() for _ in range(n)]
+        ys = [yp.variable() for _ in range(n)]
+        open_ = []
+        try:
+            for i in range(n):
+                g = iter(unify(yp.functor('g', [xs[i], b]), yp.functor('g', [a, ys[i]])))
+                try:
+                    next(g)
+                except StopIteration:
+                    return FAIL('many-open:unifiable-pair-does-not-yield', {'open_unifications': i, 'pair': 'g(X%d, b) = g(a, Y%d)' % (i, i)})
+                open_.append(g)
+                if impl.reify(xs[i], {}) != ('a', 'a') or impl.reify(ys[i], {}) != ('a', 'b'):
+                    return FAIL('many-open:unifier-differs', {'open_unifications': i})
+            for i in (0, n // 2, n - 1):
+                if impl.reify(xs[i], {}) != ('a', 'a'):
+                    return FAIL('many-open:earlier-binding-lost', {'index': i})
+        except Exception as e:      # noqa
+            return FAIL('many-open:exception:' + impl.exc_signature(e), {'open_unifications': len(open_), 'error': '%s: %s' % (type(e).__name__, str(e)[:200])})
+        finally:
+            for g in reversed(open_):
+                g.close()
+        if any(impl.get_value(v) is not v for v in xs + ys):
+            return FAIL('many-open:not-restored', {'n': n})
+        return OK(True, ['many-open:%d' % n])
 
     # -- bounded-exhaustive sub-scope
     def enumerate(self, tier):
